@@ -157,6 +157,9 @@ func run(c Case) (pbt.Outcome, error) {
 		errs.Addf("panic in thread %s: %s\n%.1500s", p.Thread, p.Value, p.Stack)
 	}
 	if res.Deadlock || res.Hang || res.StepLimit {
+		if res.Hang {
+			errs.Poison() // a thread is still blocked inside the library: stop this process after saving the case
+		}
 		errs.Addf("calls did not all return: deadlock=%v hang=%v steplimit=%v: %s", res.Deadlock, res.Hang, res.StepLimit, res.Detail)
 		return out, errs.Err()
 	}
@@ -231,17 +234,19 @@ type RaceCase struct {
 	Reports    int   `json:"reports"`
 	CloseAt    int   `json:"closeAt"`    // Close is called concurrently after this many microseconds (0 = at once)
 	KillSink   bool  `json:"killSink"`   // the destination goes away mid-run
+	KillFirst  bool  `json:"killFirst,omitempty"` // ... or is already gone when the first call is made (every send fails)
 	Seed       uint64 `json:"seed"`
 }
 
 func genRace(t *rapid.T) RaceCase {
-	c := RaceCase{Binary: rapid.Bool().Draw(t, "binary"), Queue: rapid.SampledFrom([]int{1, 2, 64}).Draw(t, "queue"), Reports: rapid.IntRange(1, 30).Draw(t, "reports")}
+	c := RaceCase{Binary: rapid.Bool().Draw(t, "binary"), Queue: rapid.SampledFrom([]int{1, 2, 4, 8, 64}).Draw(t, "queue"), Reports: rapid.OneOf(rapid.IntRange(1, 30), rapid.IntRange(100, 300)).Draw(t, "reports")}
 	n := rapid.IntRange(2, 10).Draw(t, "n")
 	for i := 0; i < n; i++ {
 		c.Goroutines = append(c.Goroutines, rapid.SampledFrom([]int{0, 1, 2, 3, 3, 3, 4, 5}).Draw(t, "kind"))
 	}
 	c.CloseAt = rapid.SampledFrom([]int{0, 0, 20, 100, 1000}).Draw(t, "closeAt")
-	c.KillSink = rapid.IntRange(0, 3).Draw(t, "kill") == 0
+	c.KillSink = rapid.IntRange(0, 1).Draw(t, "kill") == 0
+	c.KillFirst = c.KillSink && rapid.Bool().Draw(t, "killFirst")
 	c.Seed = rapid.Uint64().Draw(t, "seed")
 	return c
 }
@@ -319,7 +324,9 @@ func runRace(c RaceCase) (pbt.Outcome, error) {
 		closeErr1 = r.Close()
 		closeErr2 = r.Close()
 	})
-	if c.KillSink {
+	if c.KillFirst {
+		_ = sink.Conn.Close()
+	} else if c.KillSink {
 		guard("sink-killer", func() {
 			time.Sleep(time.Duration(c.CloseAt/2) * time.Microsecond)
 			_ = sink.Conn.Close()
@@ -332,6 +339,7 @@ func runRace(c RaceCase) (pbt.Outcome, error) {
 	case <-done:
 	case <-time.After(30 * time.Second):
 		errs.Addf("calls did not return within 30s (hang)")
+		errs.Poison()
 		return pbt.Outcome{}, errs.Err()
 	}
 	m3.VerifSetHooks(nil)
@@ -359,7 +367,10 @@ func runRace(c RaceCase) (pbt.Outcome, error) {
 func TestRace(t *testing.T) {
 	pbt.Main(t, pbt.Prop[RaceCase]{
 		ID: "C14", Name: "race",
-		Rule: "free-running mode (real parallelism, built with -race, hooks inject seeded Gosched perturbation): 2..10 goroutines each repeat 1..30 calls of one kind (counter, gauge, timer, ReportSamples on ONE shared histogram-bucket handle, Flush, Allocate+report) while another goroutine calls Close (at once or after 20us..1ms) and then Close again, optionally with the destination socket closed mid-run (send errors); both protocols; queue 1/2/64. Oracle: no panic, all calls return within 30s, first Close nil and second Close an error, no reporter goroutine left, calls after Close are harmless, and no race-detector report. Non-trivial: >=2 goroutines share the bucket handle, or Close races the producers within 200us.",
+		Rule: "free-running mode (real parallelism, built with -race, hooks inject seeded Gosched perturbation): 2..10 goroutines each repeat 1..30 (or 100..300) calls of one kind (counter, gauge, timer, ReportSamples on ONE shared histogram-bucket handle, Flush, Allocate+report) while another goroutine calls Close (at once or after 20us..1ms) and then Close again, optionally with the destination socket closed mid-run or before the first call (send errors); both protocols; queue 1/2/64. Oracle: no panic, all calls return within 30s, first Close nil and second Close an error, no reporter goroutine left, calls after Close are harmless, and no race-detector report. Non-trivial: >=2 goroutines share the bucket handle, or Close races the producers within 200us.",
 		Gen:  genRace, Run: runRace,
+		// the schedule is not part of the case: a replay (and, after a first failure, every shrink
+		// candidate) is run up to Retries times and fails if any run fails
+		Retries: 60,
 	})
 }
